@@ -26,7 +26,7 @@ T = {
         text="TLC explores every call history on one OverlappingState against the overlapping oracle (prefix, exactly once, stays None); the real per-state match lists are compared with the specification for every reachable state; real iterator/stepwise results are validated line by line.",
         ref="6 C03"),
     "C04": dict(
-        tech="TLA+ refinement models of the storage and re-encodings (ACStore link chain + dense copy + byte classes of the noncontiguous NFA, ACRepr contiguous state encoding, ACDfaRow byte classes + DFA row filling) model-checked with TLC; product exploration (bisimulation up to observations) of each real automaton representation/option with the one TLA+ specification automaton, by TLC; Debug-dump equality of the top-level searcher with the low-level automaton built with the same options; trace validation of identical calls through all kinds and the top-level searcher",
+        tech="TLA+ refinement models of the storage and re-encodings (ACStore link chain + dense copy + byte classes of the noncontiguous NFA, ACRepr contiguous state encoding, ACContig layout + in-place id remap of the whole contiguous automaton, ACDfaRow byte classes + DFA row filling) model-checked with TLC; product exploration (bisimulation up to observations) of each real automaton representation/option with the one TLA+ specification automaton, by TLC; Debug-dump equality of the top-level searcher with the low-level automaton built with the same options; trace validation of identical calls through all kinds and the top-level searcher",
         text="Every representation (noncontiguous with 4 dense depths, contiguous with 6 dense-depth/byte-class settings, DFA with 3 start kinds x byte classes, with/without prefilter) is shown observationally equivalent to the same specification automaton on its entire reachable product, hence to each other for haystacks of every length; API-level calls through all seven kinds/entry levels are validated against the oracle.",
         ref="6 C04"),
     "C05": dict(
